@@ -59,7 +59,7 @@ REQUIRED = {
     'exact-integer': 150, 'bitwise-same': 60, 'mode/complex': 100, 'mode/vector': 100,
     'positions/1': 200, 'positions/2': 200, 'positions/3': 200, 'positions/4': 60,
     'tol/percent': 200, 'tol/zero': 60, 'tol/default': 60,
-    'infinite/cutoff-explicit': 15, 'infinite/cutoff-matters': 10, 'infinite/1000': 10,
+    'infinite/cutoff-explicit': 15, 'infinite/cutoff-matters': 5, 'infinite/1000': 10,
     'error/nonint-limit': 100, 'error/complex-limit': 100, 'error/var-constant': 50, 'error/var-declared': 20,
     'error/var-function': 50, 'error/var-invalid': 80, 'error/blank': 50, 'error/instructor-var': 40,
     'error/author-fault': 60, 'instructor/control': 10,
